@@ -373,7 +373,7 @@ fn eval_input(c: &ICase) -> CaseOutcome {
 }
 
 pub fn run(ctx: &Ctx) {
-    ctx.set_rule("L3: terminating programs from the structured generator (markers, loops, calls, data) with stepping enabled by the -i switch, by a trap flag set and cleared through PUSHF/POP/OR|AND/PUSH/POPF in mid-program, or by INT 3 at generated places, x prompt scripts vec(cmd,0..60) over {n, next, N, '  next  ', print commands, garbage lines, empty line, q, quit} ending in premature end of input; the tokenised stdout must equal the reference event sequence (one 'About to execute line N' per executed instruction while stepping, naming its line; print answered without advancing; q/quit/end of input terminate with status 0); differential part: -i with every prompt answered n versus the plain run. Output is capped at 64 KiB + 4x the expected size. Non-trivial = script with >=1 print and >=3 n, end of input before the program ends, or stepping switched on/off in mid-program.");
+    ctx.set_rule("L3: terminating programs from the structured generator (markers, loops, calls, data) with stepping enabled by the -i switch, by a trap flag set and cleared through PUSHF/POP/OR|AND/PUSH/POPF in mid-program, or by INT 3 at generated places, x prompt scripts vec(cmd,0..60) over {n, next, N, '  next  ', print commands, garbage lines, empty line, q, quit} ending in premature end of input; the tokenised stdout must equal the reference event sequence (one 'About to execute line N' per executed instruction while stepping, naming its line; print answered without advancing; q/quit/end of input terminate with status 0); differential part: -i with every prompt answered n versus the plain run. Output is capped at 64 KiB + 4x the expected size. One plain-run program in four begins with REP LODS (CX 2..5) executed before the program sets the trap flag. Non-trivial = script with >=1 print and >=3 n, end of input before the program ends, or stepping switched on/off in mid-program.");
     ctx.assume("stdin is a pipe or closed; terminal line discipline is not modelled; on end of input at a prompt an extra 'Exiting' line is allowed");
     ctx.set_exhaustive(false);
     if !cli_available() {
